@@ -6,6 +6,7 @@ import (
 	"context"
 	"fmt"
 	"os"
+	"os/exec"
 	"path/filepath"
 	"runtime"
 	"testing"
@@ -57,6 +58,8 @@ type Case struct {
 	InconsA int         `json:"incons_a,omitempty"`
 	InconsD int         `json:"incons_d,omitempty"`
 	Perturb []int       `json:"perturb,omitempty"`
+	CLI     bool        `json:"cli,omitempty"`     // also drive `desync extract` (needs $VERIF_DESYNC_BIN)
+	Inplace bool        `json:"inplace,omitempty"` // CLI: -k
 }
 
 func applyEdits(b []byte, eds []Edit) []byte {
@@ -213,6 +216,10 @@ func genCase(t *rapid.T) Case {
 	}
 	if c.N > 1 {
 		c.Perturb = sched.Vector(t, "pv")
+	}
+	if os.Getenv("VERIF_DESYNC_BIN") != "" && rapid.IntRange(0, hx.Pick(40, 8)).Draw(t, "cli") == 0 {
+		c.CLI = true
+		c.Inplace = rapid.Bool().Draw(t, "inplace")
 	}
 	return c
 }
@@ -549,6 +556,9 @@ func run(c Case) (o hx.Outcome) {
 		}
 	}
 	o.Nontrivial = nt
+	if c.CLI && !aliasSeed && len(c.FailGet) == 0 && os.Getenv("VERIF_DESYNC_BIN") != "" {
+		cliExtract(&o, c, dir, blob, idx, built, prior, incons, live)
+	}
 	o.Desc = map[string]any{"blob": len(blob), "shape": gen.Shape(c.Pieces), "chunks": len(spans), "sizes": sz, "tiled": c.Tiling != nil,
 		"seeds": seedKinds(c.Seeds), "prior": priorKind, "action": c.Action % 3, "n": n, "clone": c.Clone, "incons": incons,
 		"missing": len(c.Missing), "err": err != nil}
@@ -589,3 +599,137 @@ func TestRegress(t *testing.T) { hx.Regress(t, spec) }
 func TestKnown(t *testing.T)   { hx.Known(t, spec) }
 func TestReplay(t *testing.T)  { hx.Replay(t, spec) }
 func TestProp(t *testing.T)    { hx.Prop(t, spec) }
+
+// cliExtract drives the freshly built `desync extract` with the same index, seeds, prior
+// content and store (as a local store directory).
+func cliExtract(o *hx.Outcome, c Case, dir string, blob []byte, idx desync.Index, built []builtSeed, prior []byte, incons string, live bool) {
+	bin := os.Getenv("VERIF_DESYNC_BIN")
+	sdir := filepath.Join(dir, "clistore")
+	os.Mkdir(sdir, 0o755)
+	ls, err := desync.NewLocalStore(sdir, desync.StoreOptions{})
+	if err != nil {
+		return
+	}
+	missing := map[int]bool{}
+	for _, m := range c.Missing {
+		if len(idx.Chunks) > 0 {
+			missing[m%len(idx.Chunks)] = true
+		}
+	}
+	orig := dx.BuildIndex(blob, spansOf(c, blob), c.Sizes, false)
+	for i, ch := range orig.Chunks {
+		if missing[i] {
+			continue
+		}
+		ls.StoreChunk(desync.NewChunk(append([]byte(nil), blob[ch.Start:ch.Start+ch.Size]...)))
+	}
+	for i, ch := range orig.Chunks { // a missing chunk must be missing even if an equal chunk was stored
+		if missing[i] {
+			ls.RemoveChunk(ch.ID)
+		}
+	}
+	ipath := filepath.Join(dir, "target.caibx")
+	f, _ := os.Create(ipath)
+	idx.WriteTo(f)
+	f.Close()
+	args := []string{"extract", "-s", sdir, "-n", fmt.Sprint(max1(c.N))}
+	for i, b := range built {
+		if b.spec.Kind == "alias" || b.spec.Kind == "dup" {
+			continue
+		}
+		sp := filepath.Join(dir, fmt.Sprintf("cliseed%d.caibx", i))
+		sf, _ := os.Create(sp)
+		bi := b.index
+		bi.WriteTo(sf)
+		sf.Close()
+		args = append(args, "--seed", sp+":"+b.path)
+	}
+	switch c.Action % 3 {
+	case 1:
+		args = append(args, "--skip-invalid-seeds")
+	case 2:
+		args = append(args, "--regenerate-invalid-seeds")
+	}
+	if c.Inplace {
+		args = append(args, "-k")
+	}
+	out := filepath.Join(dir, "cli-out")
+	if prior != nil {
+		os.WriteFile(out, prior, 0o644)
+	}
+	var before os.FileInfo
+	before, _ = os.Lstat(out)
+	args = append(args, ipath, out)
+	ctx, cancel := context.WithTimeout(context.Background(), 120*time.Second)
+	defer cancel()
+	cmd := exec.CommandContext(ctx, bin, args...)
+	cmd.Env = []string{"HOME=" + dir, "TMPDIR=" + dir, "PATH=/usr/bin:/bin"}
+	cout, cerr := cmd.CombinedOutput()
+	if ctx.Err() != nil {
+		o.Class("cli-timeout")
+		return
+	}
+	o.Class("cli-extract")
+	if cerr == nil {
+		got, _ := os.ReadFile(out)
+		bad := ""
+		if int64(len(got)) != idx.Length() {
+			bad = fmt.Sprintf("output has %d bytes, index length %d", len(got), idx.Length())
+		} else {
+			for i, ch := range idx.Chunks {
+				if [32]byte(ch.ID) != ref.ID(got[ch.Start:ch.Start+ch.Size], false) {
+					bad = fmt.Sprintf("range of chunk %d does not hash to its ID", i)
+					break
+				}
+			}
+		}
+		if bad == "" && incons == "" && !bytes.Equal(got, blob) {
+			bad = "output differs from the blob"
+		}
+		if bad != "" {
+			o.Fail("C01:cli:exit0-but-wrong-output", "desync %v exited 0 but %s", args, bad)
+		}
+		o.Class("cli-exit-0")
+		return
+	}
+	o.Class("cli-exit-nonzero")
+	if live {
+		o.Fail("C01:cli:fails-with-complete-store", "store complete and seeds consistent (or skip/regenerate) but desync %v failed: %s", args, tailStr(string(cout), 400))
+	}
+	if !c.Inplace {
+		after, aerr := os.Lstat(out)
+		switch {
+		case before == nil && aerr == nil:
+			o.Fail("C01:cli:failed-extract-created-dest", "extract without -k failed but created %s", out)
+		case before != nil && aerr != nil:
+			o.Fail("C01:cli:failed-extract-removed-dest", "extract without -k failed and removed the destination")
+		case before != nil:
+			now, _ := os.ReadFile(out)
+			if !os.SameFile(before, after) || !bytes.Equal(now, prior) {
+				o.Fail("C01:cli:failed-extract-touched-dest", "extract without -k failed but the destination changed")
+			}
+		}
+		o.Class("cli-failed-without-k")
+	}
+}
+
+func spansOf(c Case, blob []byte) []ref.Span {
+	if c.Tiling != nil {
+		return dx.SpansFromTiling(c.Tiling)
+	}
+	return chunkFor(blob, c.Sizes)
+}
+
+func max1(n int) int {
+	if n < 1 {
+		return 1
+	}
+	return n
+}
+
+func tailStr(s string, n int) string {
+	if len(s) > n {
+		return s[len(s)-n:]
+	}
+	return s
+}
